@@ -10,6 +10,7 @@ import copy
 import hashlib
 import json
 import os
+import re
 import sys
 import threading
 import time
@@ -224,8 +225,19 @@ def run_seed(case):
            'counters': {'seed_runs': 1}}
     if out != item['ref']:
         res['status'] = 'violation'
-        res['violations'].append({'mech': None, 'detail': '%s: PYTHONHASHSEED=%s gives %s, seed 0 gives %s' % (
-            item['name'], os.environ.get('PYTHONHASHSEED'), out, item['ref']), 'witness': {'item': item['name'], 'opts': item['opts']}})
+        if case.get('variant'):
+            # interpreter started with another flag: `-S` leaves the site builtins (exit, quit, help, copyright, credits, license) out of dir(builtins)
+            src = _src(item)
+            text = src.decode('utf-8', 'replace') if isinstance(src, bytes) else src
+            mech = 'C11.builtins.site_names' if case['variant'] == '-S' and re.search(r'\b(exit|quit|help|copyright|credits|license)\b', text) else None
+            res['violations'].append({'mech': mech, 'detail': '%s: an interpreter started with %s gives %s, a plain one gives %s' % (item['name'], case['variant'], out, item['ref']),
+                                      'witness': {'item': item['name'], 'opts': item['opts']}})
+        else:
+            res['violations'].append({'mech': None, 'detail': '%s: PYTHONHASHSEED=%s gives %s, seed 0 gives %s' % (
+                item['name'], os.environ.get('PYTHONHASHSEED'), out, item['ref']), 'witness': {'item': item['name'], 'opts': item['opts']}})
+    if case.get('variant'):
+        res['counters'] = {'interpreter_flag_runs': 1}
+        res['nontrivial'] = ['%s@%s' % (item['name'], case['variant'])]
     return res
 
 
@@ -249,7 +261,7 @@ def build_items(tier, seed):
         for j in range(2):
             o = dict(r.choice(optsets)) if r.random() < 0.5 else options.random_set(r, 0.6)
             k = r.random()
-            if name.startswith('seed:global_multi') or name.startswith('seed:nonlocal_multi'):
+            if name.startswith('seed:global_multi') or name.startswith('seed:nonlocal_multi') or name.startswith('seed:site_builtins'):
                 o['rename_globals'] = True
                 o['rename_locals'] = True
             if k < 0.35:
@@ -299,6 +311,15 @@ def main(tier, seed):
                        env=common.clean_env(hashseed=str(sv)))
         run.count('hash_seeds_swept')
     run.notes.append('t_seed=%.1f' % (time.time() - run.t0))
+    # ---- (a3) the same call in interpreters started with other flags (no site module, -OO, isolated-ish): the documentation promises nothing about them,
+    # the property says "source, options and interpreter version"
+    for flag in ('-S', '-OO', '-s'):
+        def on_flag(c, r, flag=flag):
+            run.add({'layer': 'flag', 'flag': flag, 'item': c['item']['name'], 'opts': c['item']['opts']}, r)
+        sub = items if tier == 'thorough' else [it for i, it in enumerate(items) if i % 2 == 0 or it['name'].startswith('seed:site_builtins')]
+        pool.run_cases([{'item': it, 'variant': flag, 'timeout': 55} for it in sub], 'vf.props.C11:run_seed', timeout=60, batch=4, on_result=on_flag,
+                       env=common.clean_env(hashseed='0'), cmd=[common.VENV_PY, flag, '-m', 'vf.worker', 'vf.props.C11:run_seed'])
+    run.notes.append('t_flags=%.1f' % (time.time() - run.t0))
     # ---- (a2) the same sweep with the minifier running in the other interpreters (dict and set order depend on the hash seed below 3.7)
     cross_items = [it for it in items if it['as_text'] or _is_utf8(base64.b64decode(it['src_b64']))]
     cross_items = cross_items[::(3 if tier == 'quick' else 1)]
@@ -364,7 +385,7 @@ def main(tier, seed):
              'observed (function -> function) thread-switch signatures inside the minifier',
         assumptions=['sha256 of the returned text stands for the text', 'LINE-event callbacks may yield the GIL (time.sleep(0))'],
         min_nontrivial=100,
-        required_counters=['reference_runs_fresh_process', 'history_calls', 'thread_calls', 'seed_runs', 'cross_interpreter_seed_runs',
+        required_counters=['reference_runs_fresh_process', 'history_calls', 'thread_calls', 'seed_runs', 'cross_interpreter_seed_runs', 'interpreter_flag_runs',
                            'observed_context_switches_inside_minifier'])
 
 
